@@ -15,12 +15,24 @@ package drpchttp
 //@   ensures [val] ok ==> d == byte(int(c) + hexVal(v) * int(m))
 //@   ensures [bad] !ok ==> d == 0
 
-// unescape never panics; a string without '%' is returned unchanged; a '%' not followed by two hex
-// digits is an error.
+// unescape against the reference decoding step: at input position i the decoder emits exactly one
+// byte, decByte(s, i) (the byte itself, or the value of the two hex digits after a '%'), and moves on
+// by decAdv(s, i) (1 or 3); it fails exactly at a '%' that is not followed by two hex digits; a
+// string without '%' is returned unchanged. (The output is the bytes written to the builder, in
+// order; composing the steps into "output = decoding of the whole string" is the induction over
+// iterations.)
+//@ spec decByte(s string, i int) byte = ite(s[i] == '%', byte(hexVal(s[i+1]) * 16 + hexVal(s[i+2])), s[i])
+//@ spec decAdv(s string, i int) int = ite(s[i] == '%', 3, 1)
+//@ spec decBad(s string, i int) bool = s[i] == '%' && (i + 2 >= len(s) || hexVal(s[i+1]) < 0 || hexVal(s[i+2]) < 0)
 //@ func unescape
 //@   props C14 C13
-//@   loop 1 invariant [s] s == s0 && 0 <= i
+//@   loop 1 invariant [s] s == s0 && 0 <= i && i <= len(s)
+//@   loop 1 step [C14.advance]  i == athead(i) + decAdv(s, athead(i))
+//@   loop 1 step [C14.one-byte] eventCount("call:(*Builder).WriteByte") == 1
+//@   site (*Builder).WriteByte assert [C14.decoded-byte] arg1 == decByte(s, i) && !decBad(s, i) && i < len(s)
+//@   site New assert [C14.error-justified] i < len(s) && decBad(s, i)
 //@   ensures [identity] (forall k int :: 0 <= k && k < len(s) ==> s[k] != '%') ==> result1 == nil && result0 == s
+//@   check [C14.error-or-string] result1 != nil ==> eventCount("call:(*Builder).String") == 0
 
 //@ func buildContext
 //@   modifies maps
